@@ -13,11 +13,24 @@ TRUSTED = [
     "crash model: operations take effect in completion order; a write may be torn at any byte length (prefix); power "
     "loss cuts a file to any length >= its last fsynced length; truncate/create/unlink are durable at once",
     "zstd: decoders are Section variables in the proofs, a per-case table in the run",
+    "hand-written model props/C01/coq/ModelMulti.v of FracManager.rotate / FracManager.seal (frac.Seal + Active.Release as an "
+    "11-operation program) / FracManager.Load + loader.load over several fractions (classify, phase1_ops, replay_frac, remove_ops, "
+    "sealing of all replayed fractions but the last, rotation when none) / sealed fetch+search / Fetcher over FracManager.fracs; "
+    "sealed-form files are abstract: the documents the file was built from, a complete flag, an fsynced flag; all writes into one "
+    "temp file are one tearable operation (tied to /repo by the multi-fraction correspondence classes)",
+    "export file /repo/fracmanager/export_verif_c01.go (rotate / seal-oldest / list fractions), harness/cmd/hC01/multi.go",
 ]
 ASSUME = [
     "equal document IDs carry equal documents (a retried bulk repeats its documents unchanged); documents are non-empty",
     "64/32-bit header fields do not wrap (sizes below 2^64 / 2^32); DocPos packing (offset < 2^30) not modelled",
-    "index workers modelled sequentially; a single active fraction, no sealing/retention inside the history",
+    "index workers modelled sequentially; CHist cases: a single active fraction; CMulti cases: rotation, sealing and the "
+    "multi-fraction start-up are inside the history, retention (.del protocol), .frac-cache, .immature are not; SkipSortDocs and "
+    "KeepMetaFile off",
+    "multi-fraction histories: fraction names grow with creation time (ULID); rotation only of a fraction that holds documents; "
+    "a seal runs while no bulk is in flight (rotate and seal are separate steps, bulks do land in a new fraction while older ones "
+    "are unsealed and the next start has to seal them); a crash inside the start-up = every fraction's own operation sequence at "
+    "its own prefix (superset of the real global prefixes; the driver passes the per-fraction counts of the real crash point); "
+    "I/O faults and concurrent bulks only in single-fraction histories",
     "concurrent bulks: the model's atomic step is the writer's locked unit (docs block, then its meta block); "
     "concurrent acknowledged bulks are consecutive bulk steps in lock order (theorem C01_locked_units_sequential); "
     "crashes in the middle of a concurrent group are not generated",
@@ -44,7 +57,20 @@ RULE = ("witness family [start; bulk; crash inside next bulk at operation k torn
         "file-size limit that every small block passes and the big bulk's docs (or meta) block exceeds in any lock "
         "order, units and lock order read from the op log, then observe, start; on every real .meta file "
         "each block's Ext2 must equal the sum of the preceding Ext1 (ext_chain_ok). non-trivial = a crash, then an acknowledged bulk, then a start; "
-        "distinct by history")
+        "distinct by history. Multi-fraction stream (case CMulti): designed families - multi-seal-crash-jK: bulk, rotate, bulk, crash "
+        "after operation K = 0..11 of the seal (K = 2, 5 also with a torn ._sdocs/._index write; with/without power loss), start, "
+        "bulk, rotate, seal, seal, start; multi-both-forms: crash after the .index rename / the directory fsync / the .meta removal, "
+        "then a start-up crashed after 0-2 of its operations, start, bulk, start; multi-startup-seal: two unsealed fractions at a "
+        "start (kill or power loss), the start-up that seals the older one crashed after operation 0..17 (torn write, power loss), "
+        "start, bulk, start; multi-rotate-crash: crash after operation 0..4 of a rotation; multi-random: 1-3 (thorough 1-6) rounds of "
+        "{1-4 of bulk (new or retried) | rotate | seal; kill | power loss | crash inside a bulk | crash inside a rotation | crash inside "
+        "a seal (random operation, torn, power loss); optional crash inside the start-up at a random operation; start}; quick samples "
+        "the crash points, thorough enumerates them for the designed families; after every start every submitted document is fetched "
+        "and every token searched and FracManager.fracs is listed (fraction, sealed, writable) and compared with the model; the file "
+        "operations of all completed steps, projected to (fraction number, file, operation; consecutive writes into one temp file "
+        "merged), must equal the model's log; spec on the real observations: acknowledged bulks intact, interrupted bulks "
+        "all-or-nothing and stable, search sound, every start comes up, no fraction listed twice, exactly one writable fraction and it "
+        "is not sealed; non-trivial (multi) = a rotation happened, a crash happened, and a later start came up")
 
 
 def harness_args(tier, seed, outdir):
